@@ -106,12 +106,12 @@ type PoolPlan struct {
 }
 
 type Scenario struct {
-	Name    string  `json:"name"`
-	TTL     int     `json:"ttl"`
-	Cleanup int     `json:"cleanup"`
+	Name    string   `json:"name"`
+	TTL     int      `json:"ttl"`
+	Cleanup int      `json:"cleanup"`
 	Slots   []string `json:"slots"`
-	Expect  string  `json:"expect"` // what the MODEL VARIANT this trace comes from ends in: "deadlock", "early"
-	Steps   []MStep `json:"steps"`
+	Expect  string   `json:"expect"` // what the MODEL VARIANT this trace comes from ends in: "deadlock", "early"
+	Steps   []MStep  `json:"steps"`
 }
 
 // ---- a real pool with a mock clock --------------------------------------------------------------
